@@ -478,7 +478,7 @@ mod verif_c16 {
   use crate::verif::vstub;
 
   // ---- recording bus (solver side only) ----
-  const LOG: usize = 20;
+  const LOG: usize = 40;
   static mut EV_KIND: [u8; LOG] = [0xc1; LOG];   // 1 = read, 2 = write
   static mut EV_ADDR: [u16; LOG] = [0xc2c2; LOG];
   static mut EV_VAL: [u8; LOG] = [0xc3; LOG];
